@@ -267,6 +267,10 @@ def instance_pool(ctx, cirq, rng):
     pool.append(('gen/circuit-op-symbolic-reps', cirq.CircuitOperation(cirq.FrozenCircuit(cirq.X(qs[0])), repetitions=sympy.Symbol('r'), use_repetition_ids=False)))
     pool.append(('gen/circuit-op-expr-reps', cirq.CircuitOperation(cirq.FrozenCircuit(cirq.X(qs[0])), repetitions=sympy.Symbol('r') * 2 + 1, use_repetition_ids=False)))
     pool.append(('gen/duration-symbolic', cirq.Duration(nanos=sympy.Symbol('t'))))
+    for j_, dur_ in enumerate([cirq.Duration(nanos=2 * sympy.Symbol('a') * sympy.Symbol('b')), cirq.Duration(micros=sympy.Symbol('a') * sympy.Symbol('b') * sympy.Symbol('c') * 3),
+                               cirq.Duration(picos=sympy.Symbol('a') + 1), cirq.Duration(nanos=sympy.Symbol('a') ** 2 * 5), cirq.Duration(millis=sympy.Symbol('a') / 4)]):
+        pool.append((f'gen/duration-symbolic-{j_}', dur_))
+        pool.append((f'gen/wait-symbolic-{j_}', cirq.WaitGate(dur_)))
     pool.append(('gen/wait-shapes', [cirq.WaitGate(cirq.Duration(nanos=2), num_qubits=2), cirq.WaitGate(cirq.Duration(nanos=2), qid_shape=(3,)), cirq.WaitGate(cirq.Duration(picos=sympy.Symbol('t')))]))
     for j_, wg_ in enumerate([cirq.WaitGate(cirq.Duration(nanos=2), num_qubits=2), cirq.WaitGate(cirq.Duration(nanos=2), qid_shape=(3,)), cirq.WaitGate(cirq.Duration(nanos=2), qid_shape=(2, 3)), cirq.WaitGate(cirq.Duration(nanos=2))]):
         pool.append((f'gen/wait-gate-{j_}', wg_))
@@ -426,6 +430,38 @@ def check_stored_documents(ctx, cirq):
                     ctx.report_witness(f'stored:value:{name}', 'a stored document reads to a value different from the one it was written from', dict(rep, impl_out=[repr(got)[:800]], spec_out=[repr(want)[:800]]))
 
 
+def check_wrapped_qids(ctx, cirq):
+    """a qubit of any class given another dimension (Qid.with_dimension) is equal to another such qid exactly when the qubits inside
+    and the dimensions are equal; equal ones hash alike; the JSON text keeps them apart and reads back to the same value"""
+    import cirq_pasqal
+
+    base = [cirq_pasqal.ThreeDQubit(1, 0, 0), cirq_pasqal.TwoDQubit(1, 0), cirq_pasqal.ThreeDQubit(0, 1, 0), cirq_pasqal.TwoDQubit(0, 1), cirq.NamedQubit('a'), cirq.NamedQubit('b'),
+            cirq.LineQubit(1), cirq.GridQubit(1, 0)]
+    wrapped = [(q, d, q.with_dimension(d)) for q in base for d in (3, 4)]
+    ctx.count('check', 'wrapped-qids')
+    ctx.case(['wrapped-qids'], True)
+    for (qa, da, wa), (qb, db, wb) in itertools.product(wrapped, repeat=2):
+        want = (qa == qb) and da == db
+        got = wa == wb
+        rep = {'lines': [{'a': repr(wa), 'b': repr(wb)}], 'theorem_or_correspondence': 'equality of wrapped qids'}
+        if got != want or (got and hash(wa) != hash(wb)):
+            ctx.report_witness('qid:wrapped:equality', 'two qubits of different classes (or at different places) given the same dimension compare equal / equal ones hash differently',
+                               dict(rep, impl_out=[got, hash(wa) == hash(wb)], spec_out=[want]))
+            return
+        if not want and cirq.to_json(wa) == cirq.to_json(wb):
+            ctx.report_witness('qid:wrapped:json', 'two different wrapped qids have the same JSON text', dict(rep, impl_out=[cirq.to_json(wa)], spec_out=['different texts']))
+            return
+    for q, d, w in wrapped:
+        try:
+            back = cirq.read_json(json_text=cirq.to_json(w))
+        except Exception as e:  # noqa: BLE001
+            ctx.count('wrapped_qid_json', f'{type(q).__name__}:{type(e).__name__}')
+            continue
+        if back != w or back.dimension != d:
+            ctx.report_witness('qid:wrapped:roundtrip', 'a wrapped qid does not come back from its JSON text', {'lines': [{'qid': repr(w)}], 'impl_out': [repr(back)], 'spec_out': [repr(w)], 'theorem_or_correspondence': 'readJson ∘ toJson = id'})
+            return
+
+
 def check_qid_order(ctx, cirq, rng):
     qids = []
     for _ in range(14):
@@ -492,6 +528,7 @@ def run(ctx: common.Run):
     check_stored_documents(ctx, cirq)
     for _ in range(10 if ctx.tier == 'quick' else 200):
         check_qid_order(ctx, cirq, rng)
+    check_wrapped_qids(ctx, cirq)
 
 
 def replay(ctx, rep):
